@@ -14,6 +14,18 @@ CLAIMED = {
         "Trusts our transcription of TeX §268-283 (cross-checked by a second, declarative formulation; disagreement = INCONCLUSIVE) and the guarded read-only hook VM::verif_snapshot.",
         "DESIGN.md §6 C01",
     ),
+    "C08": (
+        "runtime monitor, differential: the same generated program run uninterrupted vs continued after serialise+deserialise at EVERY line boundary, in JSON/MessagePack/bincode; per-line output, errors (rendered), recovered-error count, font events and a final state dump (registers, codes, font, H2 stack sizes) must be identical",
+        "Held on the executions produced: ~800 (quick) / 60k (thorough) generated programs leaving behind macros on control sequences and active characters, aliases, all register kinds, code tables, open groups with saved values, executed-but-open conditionals, open \\read streams, fresh names, fonts, recovered errors; every line boundary enumerated as checkpoint. Any divergence is reported with the program, the checkpoint position and both observations.",
+        "No external model: both sides are the real code. Non-serialised attachments (file system, terminal, prefix tag registry) are re-attached by the harness as an engine would. Checkpoints after a fatal error are outside the property (pending input not exhausted).",
+        "DESIGN.md §6 C08",
+    ),
+    "C09": (
+        "runtime monitor, crash/panic oracle: token-level programs over the full installed vocabulary with hostile operands, truncated at every fragment boundary, in all four interaction modes; outcome of VM::run observed under catch_unwind with panic-site attribution, error rendering and source location checked, H2 snapshot after the run, default-stack probe in an 8 MiB thread (process death caught by the worker journal), logical step budget",
+        "Held on the executions produced: ~2.5e5 (quick) / 2e7 (thorough) VM runs ending in Ok or a located, rendered error; every panic inside /repo, arithmetic overflow, index error, todo!(), unbalanced execution stack, pending shutdown or process death is a violation keyed by (file, function, message). Non-terminating programs are cut by a step budget and not counted.",
+        "Totality is sampled, not proved. Runs use a 1 GiB stack except the dedicated default-stack probe. Known finding C09-file-location-panics is reported, not suppressed silently.",
+        "DESIGN.md §6 C09",
+    ),
 }
 
 NOT_CLAIMED = {}
